@@ -302,6 +302,129 @@ def interp_leg(tier, seed):
     return bad, n
 
 
+def spy_leg():
+    """twin runs whose await / yield-from chain ends in a leaf object that logs every special method an
+    observer might be tempted to call on it (comparison, hashing, truth value, length, attribute lookup):
+    the observed run's log must equal the unobserved run's, the leaf must be reported (also when it is
+    falsy or compares equal to nothing), and extraction must not raise"""
+    import stackscope
+
+    def make(log, falsy):
+        class Spy(object):
+            def __init__(self):
+                self.state = 0
+
+            def __iter__(self):
+                log.append("iter")
+                return self
+
+            __await__ = __iter__
+
+            def __next__(self):
+                return self.send(None)
+
+            def send(self, v):
+                if self.state == 0:
+                    self.state = 1
+                    return "parked"
+                self.state = 2
+                raise StopIteration(v)
+
+            def throw(self, typ, val=None, tb=None):
+                self.state = 2
+                raise (val if val is not None else typ)
+
+            def close(self):
+                self.state = 2
+
+            def __eq__(self, other):
+                log.append("eq")
+                return NotImplemented
+
+            def __ne__(self, other):
+                log.append("ne")
+                return NotImplemented
+
+            def __hash__(self):
+                log.append("hash")
+                return 7
+
+            def __bool__(self):
+                log.append("bool")
+                return not falsy
+
+            def __len__(self):
+                log.append("len")
+                return 0
+
+            def __getattr__(self, name):
+                log.append("getattr:" + name)
+                raise AttributeError(name)
+        return Spy
+
+    def targets(Spy, log):
+        def g():
+            log.append(("g-result", (yield from Spy())))
+
+        async def c():
+            log.append(("c-result", await Spy()))
+
+        async def inner():
+            return await Spy()
+
+        async def c2():
+            log.append(("c2-result", await inner()))
+
+        return [("gen", g), ("coro", c), ("coro2", c2)]
+
+    bad = []
+    n = 0
+    for falsy in (False, True):
+        for observe in ("extract", "extract_nocontexts", "outermost"):
+            for idx in range(3):
+                logs = []
+                leafs = []
+                for observed in (False, True):
+                    log = []
+                    Spy = make(log, falsy)
+                    name, fn = targets(Spy, log)[idx]
+                    t = fn()
+                    try:
+                        t.send(None)
+                        if observed:
+                            n += 1
+                            try:
+                                if observe == "outermost":
+                                    stackscope.extract_outermost(t)
+                                    st = stackscope.extract(t)
+                                else:
+                                    st = stackscope.extract(t, with_contexts=(observe == "extract"))
+                                    st2 = stackscope.extract(t, with_contexts=(observe == "extract"))
+                                    if len(st.frames) != len(st2.frames):
+                                        bad.append({"what": "two extractions of an unchanged target differ (spy leaf)",
+                                                    "input": {"leg": "spy", "target": name, "falsy": falsy, "observe": observe}})
+                                leafs.append((type(st.leaf).__name__, st.error is None))
+                            except BaseException as ex:
+                                bad.append({"what": "extraction raised %r on a target whose chain ends in a leaf with user-defined "
+                                                    "special methods" % (ex,),
+                                            "input": {"leg": "spy", "target": name, "falsy": falsy, "observe": observe}})
+                        try:
+                            t.send(41)
+                        except StopIteration:
+                            pass
+                    finally:
+                        t.close()
+                    logs.append(log)
+                if logs[0] != logs[1]:
+                    bad.append({"what": "observing the target called special methods of an object on its await/yield-from chain: "
+                                        "unobserved log %r, observed log %r" % (logs[0], logs[1]),
+                                "input": {"leg": "spy", "target": name, "falsy": falsy, "observe": observe}})
+                elif leafs and leafs[0] != ("Spy", True):
+                    bad.append({"what": "the leaf of the chain is reported as %r (expected the Spy object, no error)" % (leafs[0],),
+                                "input": {"leg": "spy", "target": name, "falsy": falsy, "observe": observe}})
+    return bad, n
+
+
 def extra_legs(tier, seed):
     from . import progs
     res = progs.leg_purity(tier, seed)
@@ -311,4 +434,21 @@ def extra_legs(tier, seed):
     res["violations"].extend(bad)
     res["evaluations"] += n
     res.setdefault("info", {})["interp_state_forced_retry_snapshots"] = n
+    # memory safety of the 3.11 / 3.10 / 3.9 code paths: the running-frame leg (frames executing while they
+    # are inspected: the ctypes reads of the value stack) in child processes; a child that dies on a signal
+    # is a crash of the interpreter caused by the observation
+    handles = progs.start_children(["running"], "tiny", seed, {}, 0)
+    crashed = []
+    for label, c in progs.collect_children(handles, "tiny"):
+        if "failed" in c and ("rc=-" in str(c["failed"]) or "timeout" in str(c["failed"])):
+            crashed.append({"what": "the interpreter (python %s) crashed or hung while frames running on the calling thread were "
+                                    "being extracted: %s" % (label, c["failed"]),
+                            "input": {"leg": "crash", "python": label, "stderr": c.get("stderr", "")[-800:]}})
+    res["violations"].extend(crashed)
+    res["evaluations"] += len(handles)
+    res["info"]["crash_leg_children"] = len(handles)
+    bad, n = spy_leg()
+    res["violations"].extend(bad)
+    res["evaluations"] += n
+    res["info"]["spy_leaf_twin_runs"] = n
     return res
